@@ -130,7 +130,7 @@ def parse_tag(tag):
     if tag.startswith("?"):
         return ("opt", tag[1:])
     if tag.startswith("("):
-        return ("tuple", tag)      # fixed-arity tuple with per-position tags
+        return ("ftuple", tag)     # fixed-arity tuple with per-position tags
     if "[" in tag and tag.endswith("]"):
         head, _, rest = tag.partition("[")
         return (head, rest[:-1])
